@@ -10,7 +10,10 @@ T2 = 'HW_CPU_X86_AVX2'
 
 
 def states():
-    s1 = [reqs.mk_rp(1), reqs.mk_rp(2)]
+    # K9 on P2 only makes the project / user / consumer-type rows exist, so that allocation
+    # writes racing here do not also race for creating them (that race is C06's and C12's)
+    s1 = [reqs.mk_rp(1), reqs.mk_rp(2), reqs.put_invs(P(2), 0, {'VCPU': {'total': 4}}),
+          reqs.put_alloc(K(9), {P(2): {'VCPU': 1}})]
     s2 = s1 + [reqs.put_invs(P(1), 0, {'VCPU': {'total': 4}})]
     s3 = s2 + [reqs.put_traits(P(1), 1, [T1]), reqs.put_aggs(P(1), 2, [A(1)]),
                reqs.put_alloc(K(1), {P(1): {'VCPU': 1}})]
